@@ -417,7 +417,7 @@ Section WFMut.
     pose proof (zn_GW_le B HW) as HG.
     unfold erase_choose_deleted, wadd in H. unfold zn in *.
     rewrite wrap_small in H by (rewrite two_p_64; lia).
-    rewrite Z.geb_leb in H. apply Z.leb_gt in H. lia.
+    cmp_norm. bool_hyps. lia.
   Qed.
 
   (* ... and then the nearest non-run bytes on both sides of i are EMPTY *)
